@@ -2,7 +2,7 @@ import Simaple.Model.All
 /-! JSON-lines driver:  lake env lean --run Driver.lean < requests.jsonl -/
 open Lean Simaple.J
 
-def handlers : List (String → Json → Option (Except String Json)) := [Simaple.DrvEngine.engine, Simaple.DrvJob.job, Simaple.DrvComponent.component, Simaple.DrvComponentMage.component, Simaple.DrvComponentMech.component, Simaple.DrvComponentCommon.component, Simaple.DrvComponentWind.component, Simaple.DrvDispatch.dispatch, Simaple.Drv.core, Simaple.Drv.report, Simaple.Drv.bonus, Simaple.Drv.damageCalc, Simaple.Drv.starforce, Simaple.DrvGearParts.gearParts, Simaple.Drv.optimizer, Simaple.DrvTargets.targets, Simaple.Drv.dsl, Simaple.Drv.memo, Simaple.DrvSpec.spec, Simaple.DrvLevels.levels, Simaple.DrvEntity.entity, Simaple.Drv.sharing]
+def handlers : List (String → Json → Option (Except String Json)) := [Simaple.DrvEngine.engine, Simaple.DrvJob.job, Simaple.DrvComponent.component, Simaple.DrvComponentMage.component, Simaple.DrvComponentMech.component, Simaple.DrvComponentCommon.component, Simaple.DrvComponentWind.component, Simaple.DrvDispatch.dispatch, Simaple.Drv.core, Simaple.Drv.report, Simaple.Drv.bonus, Simaple.Drv.damageCalc, Simaple.Drv.starforce, Simaple.DrvGearParts.gearParts, Simaple.Drv.optimizer, Simaple.DrvTargets.targets, Simaple.Drv.dsl, Simaple.Drv.memo, Simaple.DrvSpec.spec, Simaple.DrvLevels.levels, Simaple.DrvEntity.entity, Simaple.Drv.sharing, Simaple.DrvEffect.effect]
 
 def handle (line : String) : Json :=
   match Json.parse line with
